@@ -79,6 +79,14 @@ func (k *Keys) GetCursorPos() (x, y int) {
 		break
 	}
 
+	// What has been read along with the cursor answer
+	// (typed before it, or just after) is user input.
+	if _, typed := k.extractCursorPos(cursor); len(typed) > 0 {
+		k.mutex.RLock()
+		k.buf = append(k.buf, typed...)
+		k.mutex.RUnlock()
+	}
+
 	// We know that we have a cursor answer, process it.
 	y, err := strconv.Atoi(match[0][1])
 	if err != nil {
